@@ -3,7 +3,7 @@
    rounding function in the source breaks these equalities. *)
 From Coq Require Import ZArith List Bool PrimFloat.
 Import ListNotations.
-From Yaqs Require Import Base.Num Model.Verdict Model.Grid Gen.SmallGen.
+From Yaqs Require Import Base.Num Model.Verdict Model.Grid Model.NoiseAttrib Gen.SmallGen.
 
 (* the allowance of the verdict in the source: the double 1e-9, non-negative *)
 Definition verdict_eps : float := 0x1.12e0be826d695p-30%float.
@@ -24,4 +24,11 @@ Theorem jump_applied_src_is_model jump_time time dt : jump_applied_src jump_time
 Proof. reflexivity. Qed.
 (* the test that announces a jump (has_scheduled_jump) and the test that applies it (apply_scheduled_jumps) are the same *)
 Theorem announced_iff_applied jump_time time dt : jump_announced_src jump_time time dt = jump_applied_src jump_time time dt.
+Proof. reflexivity. Qed.
+
+(* the selection test of create_local_noise_model in the source is the model's is_local, and the list it builds is local_procs *)
+Theorem local_src_is_model a b k : local_selected_src a b (sites_of k) = is_local a b k.
+Proof. reflexivity. Qed.
+Theorem local_src_list_is_model {A} (kind_of : A -> pkind) a b procs :
+  filter (fun p => local_selected_src a b (sites_of (kind_of p))) procs = local_procs kind_of a b procs.
 Proof. reflexivity. Qed.
